@@ -8,7 +8,6 @@ from contracts.c13_caches import SMeta, Data, ST
 from contracts.c05_evaluate import CX, Any
 
 import contracts.c19_parser      # class declarations of the parser objects (ActionLike, ActionRequest, TransformQuerySegment)
-classdef("liquer.commands.CommandExecutable", fields={})
 classdef("CmdMeta", fields=dict(attributes=Any))
 CMD = Ref("CommandExecutable")
 
